@@ -283,7 +283,9 @@ def run_kink(u, out):
     NP = pats.shape[1]
     for P, shape in [(1, ()), (2, (2,)), (3, (1, 2))]:
         n = P * int(np.prod(shape, dtype=int))
-        rng_pts = [-1.2, 0.7, -0.3, 2.0, 0.45, -0.9]
+        # O(1) base points and base points at a TINY non-zero distance from the kink at 0 (the branch is decided by the sign
+        # of x_0, however small)
+        rng_pts = [-1.2, 0.7, -0.3, 2.0, 0.45, -0.9, 1e-9, -1e-9, 3e-13, -2e-16, 1e-300, -1e-300]
         for ch in range(-(-NP // n)):
             sel = [(ch * n + k) % NP for k in range(n)]
             X = np.zeros((D, n))
